@@ -2752,7 +2752,7 @@ func (self *LockDB) wakeUpWaitLock(lockManager *LockManager, waitLock *Lock, ser
 		lockManager.glock.Unlock()
 		verifPoint(VP_WAKE_UNLOCKED)
 
-		if waitLockProtocol.serverProtocol == serverProtocol {
+		if waitLockProtocol.target() == serverProtocol {
 			_ = serverProtocol.ProcessLockResultCommand(waitLockCommand, protocol.RESULT_SUCCED, uint16(lockManager.locked), waitLock.locked, lockData)
 		} else {
 			_ = waitLockProtocol.ProcessLockResultCommandLocked(waitLockCommand, protocol.RESULT_SUCCED, uint16(lockManager.locked), waitLock.locked, lockData)
@@ -2777,7 +2777,7 @@ func (self *LockDB) wakeUpWaitLock(lockManager *LockManager, waitLock *Lock, ser
 	lockManager.glock.Unlock()
 	verifPoint(VP_WAKE_UNLOCKED)
 
-	if waitLockProtocol.serverProtocol == serverProtocol {
+	if waitLockProtocol.target() == serverProtocol {
 		_ = serverProtocol.ProcessLockResultCommand(waitLockCommand, protocol.RESULT_SUCCED, uint16(lockManager.locked), waitLock.locked, lockData)
 		_ = serverProtocol.FreeLockCommand(waitLockCommand)
 	} else {
